@@ -25,7 +25,7 @@ func buildWasmDriver(r *evid.Run) string {
 	out := filepath.Join(os.TempDir(), "wasmdriver")
 	cmd := exec.Command("go", "build", "-tags", "verif tinywasm", "-o", out, "./cmd/wasmdriver")
 	cmd.Dir = evid.Root + "/harness"
-	cmd.Env = append(os.Environ(), "GOFLAGS=-mod=mod", "GOPROXY=off")
+	cmd.Env = append(os.Environ(), "GOPROXY=off") // GOFLAGS (-mod=mod -modfile=...) comes from scripts/check.sh
 	if b, err := cmd.CombinedOutput(); err != nil {
 		r.Broken("cannot build the tinywasm variant: %v\n%s", err, b)
 		return ""
